@@ -49,6 +49,7 @@ func checkC14(c *checkCtx) int {
 		ProbeCases []json.RawMessage `json:"probe_cases"`
 		ClassMixes map[string]int    `json:"class_mix_histogram"`
 		EnvRuns    int               `json:"environment_fault_runs"`
+		Aged       int               `json:"process_aged_with_calls"`
 		Sentinels  []struct {
 			Case  json.RawMessage `json:"case"`
 			Pair  json.RawMessage `json:"pair"`
@@ -88,6 +89,9 @@ func checkC14(c *checkCtx) int {
 				tot.Decisions += s.Decisions
 				tot.Steps += s.Steps
 				tot.EnvRuns += s.EnvRuns
+				if s.Aged > 0 {
+					tot.Aged++
+				}
 				for k, n := range s.ByFamily {
 					tot.ByFamily[k] += n
 				}
@@ -192,11 +196,12 @@ func checkC14(c *checkCtx) int {
 			"cases": probed, "repetitions_each": reps, "calls": calls,
 			"note": "executed on the untouched sources under the real Go runtime; a divergence here that the seam did not predict is an order source the instrumenter missed and is reported as a (statistical) violation",
 		},
-		"simulated_time_steps": tot.Steps,
-		"steps_per_hour":       float64(tot.Steps) / wall * 3600,
-		"runs_per_hour":        float64(tot.Orders) / wall * 3600,
-		"worker_processes":     nproc,
-		"oracles":              []string{"all explored orders of a case give the same (boolean, error-or-not) for Evaluate and the same (result, error-or-not) for Execute", "repeating the call on the untouched build gives the same outcome"},
+		"simulated_time_steps":                   tot.Steps,
+		"steps_per_hour":                         float64(tot.Steps) / wall * 3600,
+		"runs_per_hour":                          float64(tot.Orders) / wall * 3600,
+		"worker_processes":                       nproc,
+		"worker_processes_aged_before_exploring": tot.Aged,
+		"oracles":                                []string{"all explored orders of a case give the same (boolean, error-or-not) for Evaluate and the same (result, error-or-not) for Execute", "repeating the call on the untouched build gives the same outcome"},
 	}
 	c.writeEvidence("exploration", cov, []string{
 		"cases are sampled; orders are sampled except for decision trees of at most 5040 leaves",
